@@ -355,6 +355,26 @@ def _target_names(t, out):
         for x in t.elts: _target_names(x, out)
     elif isinstance(t, ast.Starred): _target_names(t.value, out)
 
+def assignment_order(blocks, names):
+    """the names ordered by where the statements first assign them (the hidden tag list first): stable under renaming"""
+    pos = {}
+    def target(t, at):
+        if isinstance(t, ast.Name): pos.setdefault(t.id, at)
+        elif isinstance(t, (ast.Tuple, ast.List)):
+            for x in t.elts: target(x, at)
+        elif isinstance(t, ast.Starred): target(t.value, at)
+    k = 0
+    for b in blocks:
+        for st in b:
+            for n in ast.walk(st):
+                at = (k, getattr(n, 'lineno', 0), getattr(n, 'col_offset', 0))
+                if isinstance(n, ast.Assign):
+                    for t in n.targets: target(t, at)
+                elif isinstance(n, (ast.AugAssign, ast.AnnAssign)): target(n.target, at)
+                elif isinstance(n, ast.For): target(n.target, at)
+        k += 1
+    return sorted(names, key=lambda v: ((0,) if v == OUT else (1,) + pos.get(v, (9, 0, 0)), v))
+
 def reads_before_writes(stmts, written):
     """names that may be read in the statements before the statements themselves assign them (flow-sensitive over if / for / try);
     `written` (a set, updated) = names definitely assigned before / after"""
@@ -1202,7 +1222,7 @@ class Fn(Stmts):
         output would mention an unbound identifier and not compile."""
         per = [assigned_names(b, self.writes_map) for b in blocks]
         names = set().union(*per) if per else set()
-        return sorted(n for n in names if n in live and (n in env or all(n in p for p in per)))
+        return assignment_order(blocks, [n for n in names if n in live and (n in env or all(n in p for p in per))])
 
     def loop_vars(self, s, env, live, targets):
         """the loop-carried variables: assigned in the body and read in a later iteration (before being assigned again) or after the loop"""
@@ -1211,7 +1231,7 @@ class Fn(Stmts):
         _target_names(s.target, tnames)
         inner = reads_before_writes(s.body, set(tnames))
         carried = inner | live
-        vars_ = sorted(v for v in assigned if v in carried and v not in tnames)
+        vars_ = assignment_order([s.body], [v for v in assigned if v in carried and v not in tnames])
         for v in list(vars_):
             if v not in env:
                 if v in inner: bad(s, f'{v} is assigned in the loop and read in a later iteration but not bound before the loop')
